@@ -347,6 +347,42 @@ def du4_print_chain(ctx):
         pass
 
 
+def _column_through_match(ctx, b, e):
+    """a per-row value computed from the row by a `match` (an enum row handed to `unit.seconds()`): the value of the arm each
+    row of the iterated table selects. -> list of expressions, one per row, or None"""
+    from ..interval import _array_column
+    try:
+        alts = alternatives(b, e)
+    except Exception:
+        return None
+    rows = None
+    sel = None
+    for val, conds in alts:
+        for d, v in conds:
+            d0 = strip(d)
+            if d0[0] == 'discr' and not isinstance(v, tuple):
+                col = _array_column(strip(d0[1]))
+                if col is not None:
+                    rows, sel = col, render(d)
+    if rows is None:
+        return None
+    out = []
+    for r_ in rows:
+        r0 = strip(r_)
+        if r0[0] != 'aggr':
+            return None
+        owner, _, vname = str(r0[1]).rpartition('::')
+        rec = ctx.facts.adts.get(owner)
+        dv = [v_['discr'] for v_ in (rec['variants'] if rec else []) if v_['name'] == vname]
+        if not dv:
+            return None
+        hit = [val for val, conds in alts if any(render(d) == sel and not isinstance(v, tuple) and dv[0] in v for d, v in conds)]
+        if len(hit) != 1:
+            return None
+        out.append(hit[0])
+    return out
+
+
 def du4_table_driven(ctx, b, calls, length, placeholder):
     """the same telescoping written as one loop over a literal table of (unit length, placeholder, kind) rows: per row
     `if r >= U { emit(r / U, placeholder, kind); r %= U }`. Checked: the value, the guard and the remainder update use
@@ -391,7 +427,10 @@ def du4_table_driven(ctx, b, calls, length, placeholder):
             cols['placeholder'].append(ph_[0])
             cols['kind'].append(kd_[0])
     else:
+        no_placeholder = 'placeholder' not in by_ty and len(t['args']) == 4
         for nm, idx in (('placeholder', by_ty.get('placeholder', 2)), ('kind', by_ty.get('kind', 4))):
+            if nm == 'placeholder' and no_placeholder:
+                continue                  # the formatter derives the placeholder from the kind itself: DU5 walks it per kind
             if idx >= len(t['args']):
                 ctx.finding('DU4', 'print/table/%s-not-from-table' % nm, 'duration_formatter is not handed a %s inside the loop' % nm, site=t['loc'])
                 return
@@ -404,13 +443,14 @@ def du4_table_driven(ctx, b, calls, length, placeholder):
     if val[0] != 'binop' or val[1] != 'Div':
         ctx.finding('DU4', 'print/table/value', 'inside the unit loop the printed count is %s, expected remainder / unit' % render(val)[:80], site=t['loc'])
         return
-    ucol = _array_column(strip(val[3]))
+    ucol = _array_column(strip(val[3])) or _column_through_match(ctx, b, val[3])
     if ucol is None:
         ctx.finding('DU4', 'print/table/divisor', 'the divisor of the printed count is not the unit column of the table: %s' % render(val[3])[:80], site=t['loc'])
         return
     # remainder update in the loop: Rem by the same column
     rems = [st for i in b.normal_blocks if b.in_loop(i) for st in b.blocks[i]['stmts'] if st['k'] == 'assign' and st['rv'] == 'binop' and st['op'] == 'Rem']
-    if len(rems) != 1 or _array_column(strip(b.expr(rems[0]['ops'][1]))) is None or [render(x) for x in _array_column(strip(b.expr(rems[0]['ops'][1])))] != [render(x) for x in ucol]:
+    rcol = (_array_column(strip(b.expr(rems[0]['ops'][1]))) or _column_through_match(ctx, b, b.expr(rems[0]['ops'][1]))) if len(rems) == 1 else None
+    if len(rems) != 1 or rcol is None or [render(x) for x in rcol] != [render(x) for x in ucol]:
         ctx.finding('DU4', 'print/table/remainder', 'the running remainder is not reduced by the unit of the same row (%d `%%` in the loop)' % len(rems), site=t['loc'])
         return
     if render(strip(b.mexpr(rems[0]['ops'][0]))) != render(strip(b.mexpr(t['args'][3])))[1:].split(' Div ')[0]:
@@ -421,6 +461,8 @@ def du4_table_driven(ctx, b, calls, length, placeholder):
         ctx.finding('DU4', 'print/table/guard', 'inside the unit loop a part is emitted under %s; expected remainder >= unit' % conds[-120:], site=t['loc'])
         return
     rows = []
+    if 'placeholder' not in cols:
+        cols['placeholder'] = [('const', '&str', placeholder.get(re.sub(r'.*::(\w+)$', r'\1', str(strip(k0)[1])) if strip(k0)[0] == 'aggr' else '', None), '') for k0 in cols['kind']]
     for u_, p_, k_ in zip(ucol, cols['placeholder'], cols['kind']):
         u_, p_, k_ = strip(u_), strip(p_), strip(k_)
         m = re.match(r'constants::DurationFormatType::(\w+)', k_[1]) if k_[0] == 'aggr' else None
@@ -495,8 +537,9 @@ def du5_selection_table(ctx):
             role.setdefault('duration', i)
         elif t.endswith('DurationFormatType'):
             role.setdefault('kind', i)
-    if len(role) != 5 or b.argc != 5:
+    if not ((len(role) == 5 and b.argc == 5) or (len(role) == 4 and b.argc == 4 and 'placeholder' not in role)):
         raise AnchorLost('duration_formatter: parameter types changed: %s' % tys)
+    PH = {'Year': '{year}', 'Month': '{month}', 'Week': '{week}', 'Day': '{day}', 'Hour': '{hour}', 'Minute': '{minute}', 'Second': '{second}'}
     adt = ctx.facts.adts.get('constants::DurationFormatType')
     if not adt or len(adt['variants']) < 2:
         raise AnchorLost('enum constants::DurationFormatType not found')
@@ -509,7 +552,7 @@ def du5_selection_table(ctx):
             return ''.join(v[1])
         return None
 
-    def walk(entries, duration):
+    def walk(entries, duration, ki=0):
         def model(m, path, args, t):
             a0 = m.deref_value(args[0]) if args else None
             if re.search(r'ToString>::to_string$', path) and isinstance(a0, int):
@@ -538,10 +581,11 @@ def du5_selection_table(ctx):
                 if text_of(x) is not None and text_of(y) is not None:           # the count column against a literal
                     return int((text_of(x) == text_of(y)) == (mm.group(1) == 'eq'))
                 if isinstance(x, dict) and isinstance(y, dict) and '__discr__' in x and '__discr__' in y:
-                    same = x['__discr__'] == y['__discr__']
-                    return int(same if mm.group(1) == 'eq' else not same)
+                    same = m.adt_equal(x, y)
+                    if same is not None:
+                        return int(same if mm.group(1) == 'eq' else not same)
             if re.search(r'str::<impl str>::replace$|str>::replace$', path) and len(args) == 3:
-                src, pat, w = (m.deref_value(a) for a in args)
+                src, pat, w = (absstr.lit(m.deref_value(a)) for a in args)
                 if absstr.is_str(src) and absstr.is_str(pat) and absstr.is_str(w):
                     return ('str', ['R<%s|%s|%s>' % ('+'.join(map(str, src[1])), '+'.join(map(str, pat[1])), '+'.join(map(str, w[1])))])
             r = absstr.std_model(m, path, args, t)
@@ -555,13 +599,19 @@ def du5_selection_table(ctx):
             items.append({'__adt__': 'constants::JsonDurationFormat', '__variant__': 'JsonDurationFormat',
                           'count': ('str', list({'E': '%d' % duration, 'N': '%d' % (duration + 3), 'G': 'n'}[cnt])),
                           'format': ('str', ['F%d' % k]),
-                          'duration_type': m.make_adt('constants::DurationFormatType::%s' % (vs[0]['name'] if same else vs[1]['name']), [], [])})
+                          'duration_type': m.make_adt('constants::DurationFormatType::%s' % (vs[ki]['name'] if same else vs[(ki + 1) % len(vs)]['name']), [], [])})
         fmt = {'__adt__': 'constants::JsonFormat', '__variant__': 'JsonFormat', 'duration': ('vec', items)}
         m.env[role['format']] = m.alloc(fmt, 'format')
         m.env[role['buffer']] = m.alloc(('str', ['B']), 'buffer')
-        m.env[role['placeholder']] = ('str', ['P'])
+        if 'placeholder' in role:
+            m.env[role['placeholder']] = ('str', ['P'])
+            pat = 'P'
+        else:
+            # the formatter derives the placeholder from the unit it is handed: it must be the unit's own
+            pat = '+'.join(PH.get(vs[ki]['name'], '?'))
         m.env[role['duration']] = duration
-        m.env[role['kind']] = m.make_adt('constants::DurationFormatType::%s' % vs[0]['name'], [], [])
+        kindv = m.make_adt('constants::DurationFormatType::%s' % vs[ki]['name'], [], [])
+        m.env[role['kind']] = m.alloc(kindv, 'kind') if tys[role['kind'] - 1].startswith('&') else kindv
         why = m.run(0)
         if why != 'return':
             raise Unknown('the walk ended with %s' % why)
@@ -571,9 +621,9 @@ def du5_selection_table(ctx):
         exact = [k for k, (same, cnt) in enumerate(entries) if same and cnt == 'E']
         generic = [k for k, (same, cnt) in enumerate(entries) if same and cnt == 'G']
         if exact:
-            want = ['B', 'R<F%d|P|n>' % exact[0], ' ']
+            want = ['B', 'R<F%d|%s|n>' % (exact[0], pat), ' ']
         elif generic:
-            want = ['B', 'R<F%d|P|n>' % generic[0], ' ']
+            want = ['B', 'R<F%d|%s|n>' % (generic[0], pat), ' ']
         else:
             want = ['B', 'n', ' ']
         return list(out[1]), want, ('exact' if exact else 'generic' if generic else 'bare')
@@ -596,6 +646,18 @@ def du5_selection_table(ctx):
                     return
                 if got != want:
                     bad.setdefault(which, []).append((entries, duration, got, want))
+    if 'placeholder' not in role and not bad:
+        # the placeholder is chosen inside: walked for every unit
+        for ki in range(1, len(vs)):
+            n += 1
+            try:
+                got, want, which = walk(((1, 'G'),), 7, ki)
+            except Unknown as ex:
+                ctx.finding('DU5', 'duration_formatter/selection/not-extractable', 'the choice of the duration format could not be tabulated (unit %s): %s' % (vs[ki]['name'], ex), site=b.loc)
+                return
+            if got != want:
+                ctx.finding('DU5', 'duration_formatter/placeholder/%s' % vs[ki]['name'], 'for the unit %s the text written is %s; expected %s (the generic format with the placeholder of that unit replaced by the number)' % (vs[ki]['name'], got, want), site=b.loc)
+                return
     for which, rows in sorted(bad.items()):
         entries, duration, got, want = rows[0]
         ctx.finding('DU5', 'duration_formatter/selection/%s' % which,
